@@ -116,7 +116,7 @@ def text_family():
         return {"d": d, "tag": "#chars", "id": "", "at": [], "g": [], "ref": "", "text": t}
     rect = {"d": 1, "tag": "rect", "id": "", "at": [["fill", "red", 0]], "g": [1, 1, 6, 5, -1, -1], "ref": ""}
     docs = []
-    docs.append([rect, el(1, "text"), ch(2, "a"), ch(2, "b"), el(2, "tspan"), ch(3, "c"), ch(2, "d")])
+    docs.append([rect, el(1, "text"), ch(2, "a"), ch(2, "b"), el(2, "tspan"), ch(3, "c"), ch(2, "d"), ch(2, "e")])
     docs.append([el(1, "g", [["opacity", 1, 0]]), dict(rect, d=2), el(2, "text", [["fill", "blue", 0]]), ch(3, "t"), ch(3, "u"),
                  dict(rect, d=1, g=[8, 8, 5, 5, -1, -1])])
     docs.append([el(1, "text"), ch(2, "k"), el(2, "tspan"), ch(3, "l"), el(3, "tspan"), ch(4, "m"), ch(3, "n"), ch(2, "o"), rect])
